@@ -267,7 +267,7 @@ prop("C01",
      technique="Rocq proof that re-encoding the decoded value reproduces the document for every database of the domain (C01_reencode_identical: enc (quant v) = enc v, induction over the value tree, leaves through Flocq and calendar arithmetic), of the document-level round trip (every value's bytes parse back to the printed element tree), of the fixed-decimal leaves through Flocq (print at dp decimals, parse to the nearest float64, print again: same text, for all values below 2^51 units of the last decimal), of the text round trip (all strings) and of the duration and date leaf round trips (all durations below 2^62 ns, all instants 1969-2068) + byte-exact in-Coq model of the encoder and of decode-after-encode checked against the real codec on generated databases; database-level round trip is PARTIAL (correspondence, not theorem)",
      text="Proved: C01_reencode_identical - for every value whose written leaves are in the leaf domain and without a vanishing optional leaf (the D22 class), quant v = Ok q and enc q = enc v, at any size and nesting.  Every text of valid XML characters survives escape -> line filter -> strict reader; integer-like leaves are fixed points; durations MM:SS.cc come back floored to 1/100 s for every 0 <= d < 2^62 (C01_duration_roundtrip, decimal print/scan inverse by induction) and are then fixed points, and the decoded duration or date prints as the same text (C01_duration_reencode, C01_date_reencode); dates come back floored to 1 s / 1/100 s for every instant 1969-01-01..2068-12-31 (C01_date_roundtrip: calendar bijection swept over all 36525 days inside Coq, time of day by arithmetic); the faithful model exhibits D22 "
           "(C01_reencode_omitempty_refuted); C01_document_roundtrip: for every value the file parses back to exactly the printed element tree (nothing lost or reordered at the XML level).  "
-          "C01_leaf_reencode: for every leaf of the stated domain (texts, integers, fixed decimals, durations, dates, coordinates, relative positions, intermediates, gear ratios) decoding the written text succeeds and writing the result again gives the same text.  "
+          "C01_leaf_reencode: for every leaf of the stated domain (texts, integers, fixed decimals including signed zeros, durations, dates, coordinates, relative positions, intermediates, gear ratios, tags, tyres, video sync points) decoding the written text succeeds and writing the result again gives the same text.  "
           "C01_fixed_decimal_reencode / C01_coordinate_reencode: for every float printing as 0 <= N < 2^51 units of the last of dp <= 22 decimals, the text is read back (nearest float64, within 2^-53+2^-64 relative, via Flocq) "
           "as a value that prints as the same text.  Not proved as one theorem (partial): enc(quant v) = enc v for whole databases (the struct level with its omitempty rule, where D22 lives) - this is checked per generated "
           "database: the model's encoder must produce the very bytes Encode wrote, Decode's value must equal the model's quant(v) leaf by leaf, the re-encoding must be identical, "
